@@ -89,6 +89,7 @@ def impl_rv_cases(payload):
                 return rec['x']
             return np.full(shape, SENT, dtype=dt)
         po, vo = mk(c['pc']), mk(c['vc'])
+        orig = intdata.copy()
         try:
             rp, rv = unpack_rvint(intdata, c['box'], float_dtype=dt, posout=po, velout=vo)
 
@@ -100,7 +101,8 @@ def impl_rv_cases(payload):
                 if code == 1:
                     return {'ret': int(ret), 'buf': None}
                 return {'ret': int(ret), 'buf': [float(x) for x in buf.astype(np.float64).reshape(-1)]}
-            out.append({'class': 'ok', 'value': {'pos': fin(c['pc'], rp, po), 'vel': fin(c['vc'], rv, vo)}})
+            out.append({'class': 'ok', 'value': {'pos': fin(c['pc'], rp, po), 'vel': fin(c['vc'], rv, vo)},
+                        'input_mutated': not bool(np.array_equal(intdata, orig))})
         except Exception as e:  # noqa: BLE001
             out.append({'class': classify(e), 'value': repr(e)[:200]})
     return out
@@ -115,6 +117,7 @@ def impl_pid_cases(payload):
         dt = _np_dtype(c['dtype'])
         packed = np.array(c['packed'], dtype=np.uint64)
         fl = dict(zip(FLAGS, c['flags']))
+        mutated, followup = False, None
         try:
             if c['mode'] == 'kernel':  # the way compaso_halo_catalog drives the kernel: caller-owned arrays
                 names = [k for k in FLAGS if fl[k]]
@@ -135,7 +138,13 @@ def impl_pid_cases(payload):
                     kw['ppd'] = float(c['ppd']) if c.get('ppd_float') else c['ppd']
                 if c.get('as_list'):
                     packed = [int(x) for x in c['packed']]
+                orig = np.array(c['packed'], dtype=np.uint64)
                 arr = bp.unpack_pids(packed, float_dtype=dt, **fl, **kw)
+                # decoding has no side effect on the caller's words: the same array decoded again gives the documented fields
+                if isinstance(packed, np.ndarray):
+                    mutated = not bool(np.array_equal(packed, orig))
+                    arr2 = bp.unpack_pids(packed, float_dtype=dt, pid=True, lagr_idx=True, tagged=True, density=True)
+                    followup = {k: [int(x) for x in np.asarray(arr2[k]).reshape(-1)] for k in ('pid', 'lagr_idx', 'tagged', 'density')}
             val, meta = {}, {}
             for k in FLAGS:
                 if k in arr:
@@ -146,7 +155,7 @@ def impl_pid_cases(payload):
                 else:
                     val[k] = None
             extra = sorted(set(arr) - set(FLAGS))
-            out.append({'class': 'ok', 'value': val, 'meta': meta, 'extra_keys': extra})
+            out.append({'class': 'ok', 'value': val, 'meta': meta, 'extra_keys': extra, 'input_mutated': mutated, 'followup': followup})
         except Exception as e:  # noqa: BLE001
             out.append({'class': classify(e), 'value': repr(e)[:200]})
     return out
@@ -536,6 +545,8 @@ def rv_judge(c, got):
                     if j is not None:
                         what += f'[{j}]: got index {canon[name][key][j]}, expected {exp[name][key][j]} (word {c["words"][j // 3][j % 3]})'
                 problems.append(what + ' differs from the documented decoding')
+    if got.get('input_mutated'):
+        problems.append('input: the decoder modified the caller\'s packed words')
     return canon, problems
 
 
@@ -555,6 +566,15 @@ def pid_judge(c, got):
                         per = 3 if k in ('lagr_idx', 'lagr_pos') else 1
                         what += f'[{j}]: got {a[j]}, expected {b[j]} (aux word {c["packed"][j // per]:#x})'
                 problems.append(what + ' differs from the documented decoding')
+        if got.get('input_mutated'):
+            problems.append('input: the decoder modified the caller\'s packed words')
+        fu = got.get('followup')
+        if fu:
+            full = pid_oracle(dict(c, flags=[True, False, True, True, True], mode='kernel'))['value']
+            for k in ('pid', 'lagr_idx', 'tagged', 'density'):
+                if fu[k] != full[k]:
+                    problems.append(f'followup: decoding the same array a second time gives a different {k}')
+                    break
     return canon, problems
 
 
